@@ -449,7 +449,8 @@ func (a *A) ruleAllowanceExpiry() {
 				ok := t.Kind == "call" && t.Name == "(time.Time).Add" && len(t.Args) == 2
 				if ok {
 					f0, _ := slotField(t.Args[0])
-					ok = f0 == "End" && (isFieldOf(t.Args[1], "types.WindowConfig", "AllowedLateness"))
+					ok = f0 == "End" && (isFieldOf(t.Args[1], "types.WindowConfig", "AllowedLateness") ||
+						a.paramAlways(t.Args[1], func(at *Term) bool { return isFieldOf(at, "types.WindowConfig", "AllowedLateness") }))
 				}
 				a.Check(ok, fname(f)+"#closeTime", st.Pos(), "closeTime = slot.End + AllowedLateness", "closeTime is "+t.String()+", expected <slot>.End.Add(config.AllowedLateness)")
 			}
@@ -597,4 +598,27 @@ func (a *A) ruleFarFutureDropped(W *types.Named, add *ssa.Function) {
 	} else {
 		a.Bad(construct, bad.Pos(), "a row whose timestamp Watermark.IsFarFuture reports as corrupt can still be stored or fed to the watermark here: as the first row it pins the first interval in the far future (nothing is ever delivered), in a session window it becomes the key's open session")
 	}
+}
+
+// paramAlways: t is a parameter of a module function all of whose (resolved, at least one) call sites
+// pass an argument whose term satisfies pred — a helper that receives the value its caller read.
+func (a *A) paramAlways(t *Term, pred func(*Term) bool) bool {
+	if t == nil || t.Kind != "param" || t.Fn == nil {
+		return false
+	}
+	node := a.CG().Nodes[t.Fn]
+	if node == nil || len(node.In) == 0 {
+		return false
+	}
+	for _, e := range node.In {
+		cc := e.Site.Common()
+		args := cc.Args
+		if cc.IsInvoke() {
+			args = append([]ssa.Value{cc.Value}, args...)
+		}
+		if t.Idx >= len(args) || !pred(TermOf(args[t.Idx], nil)) {
+			return false
+		}
+	}
+	return true
 }
